@@ -7,6 +7,7 @@ package main
 import (
 	"fmt"
 	"sort"
+	"strconv"
 	"strings"
 
 	"ariga.io/atlas/sql/schema"
@@ -36,7 +37,7 @@ func stateProj(s *schema.Schema) []string {
 			d := "-"
 			switch x := c.Default.(type) {
 			case *schema.Literal:
-				d = unq1(x.V)
+				d = x.V // the stored text itself: a quoted and an unquoted literal differ in type
 			case *schema.RawExpr:
 				d = x.X
 			}
@@ -93,7 +94,11 @@ func stateProj(s *schema.Schema) []string {
 			for _, c := range f.RefColumns {
 				rs = append(rs, c.Name)
 			}
-			fks = append(fks, fmt.Sprintf("(%s)->%s(%s):%s:%s", strings.Join(cs, ","), f.RefTable.Name, strings.Join(rs, ","), act(f.OnUpdate), act(f.OnDelete)))
+			sym := f.Symbol
+			if _, err := strconv.Atoi(sym); err == nil {
+				sym = "" // an id of pragma_foreign_key_list, not a name
+			}
+			fks = append(fks, fmt.Sprintf("%s(%s)->%s(%s):%s:%s", sym, strings.Join(cs, ","), f.RefTable.Name, strings.Join(rs, ","), act(f.OnUpdate), act(f.OnDelete)))
 		}
 		sort.Strings(fks)
 		for _, a := range t.Attrs {
